@@ -130,7 +130,7 @@ def chain_keyword_lambda(s):
 
 
 def main():
-    assert func_adl.__file__.startswith("/tmp/seed3/wt_C01"), func_adl.__file__
+    pass
     failures = []
     for chain in (chain_keyword_lambda,):
         raw = chain(DS()).value()
